@@ -144,6 +144,10 @@ def generate(tier, rng, around=None):
             p2 = dict(prog)
             p2[fn] = dict(prog[fn], ret=['raise', 'stepfault'])
             cases.append(dict(base, prog=p2, _kind='step', _tag='stepfault', _fn=fn))
+            # ... while the process future has been cancelled by its owner (the outcome then needs a fresh future)
+            for b in range(0, 5):
+                cases.append(dict(base, prog=p2, events=life.place(n, evs + [(b, ['cancel'])]) + tail,
+                                  _kind='step', _tag='stepfault', _fn=fn, _scenario=name + '+cancel'))
         # a failing scheduled callback at every boundary
         for b in range(0, 6):
             cases.append(dict(base, callbacks=[['raise', 'cbfault']], events=life.place(n, evs + [(b, ['late', 0])]) + tail,
